@@ -326,6 +326,45 @@ def check(case, rec):
         bad("doc-data", "triples differ from the non-zero cells "
             "(cell: (written, true)): %r" % (diff,))
 
+    # (1b) the same writer behind `biom convert --to-json`: the output file
+    # holds one well-formed document describing the same table, also when the
+    # output path held something longer before
+    if case.get("chunk", 0) % 4 == 1:
+        from ..cli import command, invoke
+        with tempfile.TemporaryDirectory(prefix="vf-c02-", dir=TMP) as d:
+            src_p, out_p = os.path.join(d, "in.biom"), \
+                os.path.join(d, "out.biom")
+            with open(src_p, "w", encoding="utf8") as f:
+                f.write(text)
+            if case.get("chunk", 0) % 8 == 1:
+                with open(out_p, "w", encoding="utf8") as f:
+                    f.write("stale output of an earlier run\n" * 4000)
+                rec.cls("cli-output-path-held-a-longer-file")
+            rc, out_ = invoke(command("convert"), "convert",
+                              ["-i", src_p, "-o", out_p, "--to-json"])
+            if rc != 0:
+                bad("cli-exit", "convert --to-json exited %r: %s" %
+                    (rc, out_[-300:]))
+            with open(out_p, encoding="utf8") as f:
+                cli_text = f.read()
+        try:
+            doc2 = json.loads(cli_text)
+        except ValueError as e:
+            bad("malformed-json-cli", "%s in %r ... %r" %
+                (e, cli_text[:200], cli_text[-120:]))
+        for field in ("rows", "columns"):
+            if [e.get("id") for e in doc2.get(field, [])] != \
+                    [e.get("id") for e in doc[field]]:
+                bad("cli-doc-ids", "%s of the converted file %r" %
+                    (field, doc2.get(field)))
+        if doc2.get("shape") != doc["shape"] or \
+                sorted(map(tuple, doc2.get("data", []))) != \
+                sorted(map(tuple, doc["data"])):
+            bad("cli-doc-data", "converted file holds %r / %r, document "
+                "%r / %r" % (doc2.get("shape"), doc2.get("data"),
+                             doc["shape"], doc["data"]))
+        rec.cls("writer:convert-command")
+
     # (3) reading back
     with tempfile.TemporaryDirectory(prefix="vf-c02-", dir=TMP) as d:
         r = read(text, case, d)
